@@ -2,12 +2,14 @@
 //
 // A case is a history of sends on one real exporting process against a raw peer. Every
 // send is classified beforehand:
-//   must-refuse : unknown template id, wrong field count, undefined set type, message
-//                 longer than 65535 bytes, ill-typed value (wrong address family, MAC not
-//                 6 bytes, fixed-length octetArray of the wrong length)
-//   must-accept : valid and <= 65535 bytes (TCP)
-//   transport   : valid, <= 65535, but possibly above the UDP datagram limit — the verdict
-//                 follows SendSet's own return value
+//
+//	must-refuse : unknown template id, wrong field count, undefined set type, message
+//	              longer than 65535 bytes, ill-typed value (wrong address family, MAC not
+//	              6 bytes, fixed-length octetArray of the wrong length)
+//	must-accept : valid and <= 65535 bytes (TCP)
+//	transport   : valid, <= 65535, but possibly above the UDP datagram limit — the verdict
+//	              follows SendSet's own return value
+//
 // The peer's stream must be exactly the concatenation of the accepted messages: after
 // every refused send a valid marker message is sent and must be the next thing the peer
 // sees (TCP preserves order, so stray bytes would precede it). Accepted data must carry
